@@ -278,6 +278,9 @@ func addErr(err error) string {
 		return "pre-mismatch"
 	case err.Error() == "nil group":
 		return "nil-group"
+	case strings.Contains(err.Error(), "injected write fault"):
+		return "write-error" // save returned the error of its batch write
+
 	}
 	return "err:" + strings.ReplaceAll(err.Error(), " ", "_")
 }
@@ -1306,7 +1309,7 @@ func (g *gen) writeFaults() int {
 		return 0
 	}
 	cnt := 0
-	for j := 0; j < 4; j++ {
+	for j := 0; j < 3; j++ { // Put(id, json), the batch, and one index beyond the op
 		g.pool = idPool
 		g.boot(1)
 		g.emit(fmt.Sprintf("fault %d add a1 %s %s 1", j, g.last(), g.listed[0]))
@@ -1698,7 +1701,11 @@ func main() {
 				what = "save"
 			}
 			j, _ := strconv.Atoi(f[1])
-			prefix = fmt.Sprintf("writefault:%s:w%d:", what, j%4)
+			per := 4
+			if what == "save" {
+				per = 2
+			}
+			prefix = fmt.Sprintf("writefault:%s:w%d:", what, j%per)
 		}
 		if f[0] == "crash" && strings.HasPrefix(res, "crashed") {
 			crashed = true
@@ -1739,10 +1746,10 @@ func main() {
 		// class = cut operation + number of writes that got through + SYMPTOM, so that a different
 		// failure at an already recorded crash point is a new key
 		if f[0] == "bootcrash" && strings.HasPrefix(res, "crashed") {
-			k := (n.writes - w0) % 4
+			k := (n.writes - w0) % 2 // a genesis save = two physical writes
 			if strings.HasPrefix(res, "crashed crashed") {
 				kk, _ := strconv.Atoi(f[2])
-				k = kk % 4
+				k = kk % 2
 			}
 			key = fmt.Sprintf("crash:firstboot:k%d:%s", k, key)
 		} else if f[0] == "crash" && strings.HasPrefix(res, "crashed") && len(f) >= 3 {
@@ -1750,7 +1757,11 @@ func main() {
 			if f[2] == "add" {
 				what = "save"
 			}
-			key = fmt.Sprintf("crash:%s:k%d:%s", what, (n.writes-w0)%4, key)
+			per := 4 // remove: four separate physical writes
+			if what == "save" {
+				per = 2 // save: Put(id, json), then one batch
+			}
+			key = fmt.Sprintf("crash:%s:k%d:%s", what, (n.writes-w0)%per, key)
 		} else if crashed && prefix == "" {
 			key = "crash:latent:" + key
 		}
